@@ -4,9 +4,10 @@ use arbitrary::Unstructured;
 use libfuzzer_sys::fuzz_target;
 include!("common.rs");
 
-const TOKENS: [&str; 34] = [
+const TOKENS: [&str; 36] = [
     "a", "log", "é", " ", "-", ".", "_", "$", "{", "}", "$ENV", "$ENV{", "ENV{", "$$", "/", "$ENV{LvA}", "$ENV{LvAB}", "$ENV{_lvx}", "$ENV{lv.1}", "$ENV{élv1}", "$ENV{LvZ9}",
     "$ENV{Lv\u{663}x}", "$ENV{Lv\u{b2}}", "$ENV{\u{2167}Lv}", "$ENV{\u{663}}",
+    "$ENV{Q}", "$ENV{z}",
     "$ENV{LvNEVERSET}", "$ENV{}", "$ENV{.a}", "$ENV{Lv-A}", "$ENV{Lv A}", "$ENV{Lv$A}", "$ENV{LvA", "LvA}", "}}",
 ];
 const VALUES: [&str; 10] = ["val", "", "{", "}", "ENV{LvAB}", "LvAB}", "sub/dir", "ü", "x y", "ENV{LvA}{"];
